@@ -20,6 +20,7 @@ def build(reg, cfg=None):
     # registered: 8 of its 209 obligations stayed undecided within the thorough budgets (see DESIGN 10.4)
     reg.default_havoc = '*'
     reg.add(M.merge_edge_contract(PROP))
+    reg.add(M.refine_prologue_contract(PROP))
     SETKEYS = ['sset.member', 'set.size'] + ['vec.data.edge.' + l for l in M.EDGE_LEAVES]
     for k in range(4):
         # the four std::for_each at the end of merge_edge only edit the set of edges still to be checked
